@@ -49,10 +49,10 @@ func snapshotModel() map[ipfix.ElementKey]ipfix.InfoElementEntry {
 }
 
 type c20Case struct {
-	Phase int    `json:"phase"`
-	PEN   uint32 `json:"pen"`
-	ID    uint16 `json:"id"`
-	Len   int    `json:"len,omitempty"`
+	Phase int      `json:"phase"`
+	PEN   uint32   `json:"pen"`
+	ID    uint16   `json:"id"`
+	Len   int      `json:"len,omitempty"`
 	Val   wire.Hex `json:"val,omitempty"`
 }
 
